@@ -157,6 +157,17 @@ theorem C11_log_writes_prefix (cfg : Cfg) (st : Store) (m : Manifest) (mu : Mut)
   obtain ⟨j, hj⟩ := writesOf_runPlan_prefix cfg.overwrite st (planned cfg m mu order)
   exact ⟨j, by rw [hj, planned_writes]⟩
 
+/-- **An upload onto another key version's object makes no storage call**: when the first certificate Finalize
+    visits would go to an object that the manifest records for a different key version (gcsca.upload after its
+    "fix:" commit), the storage log of that Finalize is empty — with and without overwrite — so the store is
+    left exactly as it was. -/
+theorem C11_claimed_upload_writes_nothing (cfg : Cfg) (st : Store) (m : Manifest) (mu : Mut) (k : String) (c : Cert)
+    (rest : List (String × Cert))
+    (h : heldByOther (applyPrimaries mu m) (uploadName cfg (applyPrimaries mu m) k c) k = true) :
+    finalizeLog cfg st m mu ((k, c) :: rest) = [] := by
+  unfold finalizeLog planned
+  simp only [uploadPlan, List.map_cons, List.cons_append, runPlan, h, if_true]
+
 /-- the executable check the driver prints is implied by `Consistent` -/
 theorem C11_consistentB_of (cfg : Cfg) (st : Store) (h : Consistent cfg st) : consistentB cfg st = true := by
   unfold Consistent at h; unfold consistentB
@@ -206,6 +217,16 @@ example :
     ws.map (·.1) = ["certs/sig-3.crt", manifestName] ∧
     consistentB c11Cfg (applyPrefix 1 ws st0) = true ∧ consistentB c11Cfg (applyPrefix 2 ws st0) = true ∧
     storedManifest (applyPrefix 2 ws st0) = some ⟨[("root", "certs/rootcn-1.crt"), ("sk", "certs/sigcn-2.crt"), ("sk_1", "certs/sig-3.crt")], "root", "sk_1"⟩ := by
+  decide
+
+/-- Non-vacuity (refusal): a rotation whose certificate carries the common name and serial of the recorded
+    primary's (object certs/sigcn-2.crt, held by "sk") makes no storage call even with overwrite allowed; the same
+    certificate under a fresh serial is probed and written. -/
+example :
+    let st0 := applyWrites (fullWrites c11Cfg Manifest.empty (bootMut "root" "sk" c11Rc c11Sc) [("root", c11Rc), ("sk", c11Sc)]) []
+    let m0 : Manifest := ⟨[("root", "certs/rootcn-1.crt"), ("sk", "certs/sigcn-2.crt")], "root", "sk"⟩
+    finalizeLog { c11Cfg with overwrite := true } st0 m0 (rotMut "sk_1" ⟨"sigcn", 2, 2, 0⟩) [("sk_1", ⟨"sigcn", 2, 2, 0⟩)] = [] ∧
+    (finalizeLog { c11Cfg with overwrite := true } st0 m0 (rotMut "sk_1" ⟨"sigcn", 3, 2, 0⟩) [("sk_1", ⟨"sigcn", 3, 2, 0⟩)]).length = 3 := by
   decide
 
 end GceTcb.CA
